@@ -11,7 +11,7 @@ VERIF = os.path.dirname(os.path.dirname(os.path.abspath(__file__)))
 def main():
     patch = os.path.abspath(sys.argv[1])
     ids = sys.argv[2:]
-    st = subprocess.run(['git', '-C', '/repo', 'status', '--porcelain'], stdout=subprocess.PIPE, text=True).stdout
+    st = subprocess.run(['git', '-C', '/repo', 'status', '--porcelain', '--', 'src', 'CMakeLists.txt', 'cmake'], stdout=subprocess.PIPE, text=True).stdout
     if st.strip():
         print('refusing: /repo has local changes:\n' + st)
         return 2
@@ -36,7 +36,7 @@ def main():
             print('%s rc=%d violations=%d check-errors=%d %.0fs  %s' % (pid, p.returncode, nviol, nerr, time.time() - t, first[:160]))
             sys.stdout.flush()
     finally:
-        subprocess.run(['git', '-C', '/repo', 'checkout', '--', '.'])
+        subprocess.run(['git', '-C', '/repo', 'checkout', '--', 'src'])
         subprocess.run(['git', '-C', VERIF, 'checkout', '--', 'evidence'])
     return 0
 
